@@ -447,9 +447,16 @@ func runStream(s *Stream, modelBin string, seed int64, n int, thorough bool, cor
 		}
 	}
 	sum.Disagreements = kept
-	if len(sum.OracleFails) > 200 {
-		sum.OracleFails = sum.OracleFails[:200]
+	// at most 150 per class (every class that fails is reported, whatever else fails too)
+	perClass := map[string]int{}
+	var keptO []OracleFailure
+	for _, o := range sum.OracleFails {
+		if perClass[o.Class] < 150 {
+			perClass[o.Class]++
+			keptO = append(keptO, o)
+		}
 	}
+	sum.OracleFails = keptO
 	sum.WallS = time.Since(t0).Seconds()
 	return sum, nil
 }
